@@ -104,7 +104,7 @@ func newRefRunner(pkg *PkgDef, output string, segSize uint64) (*refRunner, error
 		}
 		return nil
 	}
-	pipe := pipeline.New(ctx, graph, stores, nil, execCfg, wasm.NewRegistryWithRuntime(SimVMName, nil), engine, segSize, nil, resp, 3*time.Minute)
+	pipe := pipeline.New(ctx, graph, stores, nil, execCfg, wasm.NewRegistryWithRuntime(runtimeFor(pkg), nil), engine, segSize, nil, resp, 3*time.Minute)
 	if err := pipe.Init(ctx); err != nil {
 		return nil, err
 	}
@@ -237,4 +237,11 @@ func (r *Ref) StoresBefore(n uint64) map[string]StoreState {
 		return rb.Stores
 	}
 	return nil
+}
+
+func runtimeFor(pkg *PkgDef) string {
+	if pkg.Spkg != "" {
+		return "wazero"
+	}
+	return SimVMName
 }
